@@ -23,7 +23,9 @@ Inductive term :=
 | TTern (t : top) (x y z : term)
 | TWord (bs : list (nat * term))         (* big-endian word made of 32 byte-terms *)
 | TSha (bs : list (nat * term))          (* keccak256 of the byte-terms *)
-| TLoad (ws : list (term * term)) (k : term).   (* storage read: last write to k, else 0 *)
+| TLoad (ws : list (term * term)) (k : term)    (* storage read: last write to k, else 0 *)
+| TZAdd (x y : term)                             (* unbounded integer + and -: balance bookkeeping *)
+| TZSub (x y : term).
 
 (* (i, t) is byte i (0 = most significant) of the 32-byte word t *)
 Definition bterm := (nat * term)%type.
@@ -48,6 +50,8 @@ Fixpoint eval (rho : var -> Z) (t : term) : Z :=
       lookupZ (eval rho k)
         ((fix go (l : list (term * term)) : list (Z * Z) :=
             match l with [] => [] | (a, b) :: r => (eval rho a, eval rho b) :: go r end) ws)
+  | TZAdd x y => eval rho x + eval rho y
+  | TZSub x y => eval rho x - eval rho y
   end.
 
 Definition beval (rho : var -> Z) (b : bterm) : Z := nth (fst b) (be_bytes 32 (eval rho (snd b))) 0.
